@@ -1,3 +1,4 @@
+import IPT.Model.Times
 import IPT.Lemmas.Angle
 import IPT.Thm.C13
 import Mathlib.Tactic.FieldSimp
@@ -17,10 +18,28 @@ namespace IPT.C20
 open IPT IPT.AngleLemmas
 
 /-- the zone offset moves the Julian Day of local midnight by exactly −d/24 (Thm C13 `jd_gmt_linear`,
-    restated).  That the offset enters NOWHERE else is true by inspection of `prayerTimesDt` (its
-    only use is `JD.new rd loc.gmt`) but is not a theorem here. -/
+    restated).  That the offset enters nowhere else is `gmt_only_through_jd`. -/
 theorem gmt_enters_only_jd (dt : Date) (g d : ℝ) (h : C13.GregorianDate dt) :
     jdValue dt (g + d) = jdValue dt g - d / 24 := C13.jd_gmt_linear dt g d h
+
+section factor
+variable {α : Type} [Add α] [Sub α] [Mul α] [Div α] [Neg α] [OfScientific α] [Sc α]
+
+/-- the whole computation of a day, as a function of the parameters, the coordinates, the weather and
+    the Julian Day object of local midnight - no zone offset among its arguments -/
+def timesAtJd (p : Params α) (c : Coords α) (w : Option (Weather α)) (jd : JD α) : Except Panic DayTimes :=
+  let w := w.getD defaultWeather
+  let t := topFromJd jd c
+  match getHoursAdjExt p t w with
+  | .error e => .error e
+  | .ok h => assemble p h (getImsaak p t w)
+
+/-- **the zone offset enters the result only through the Julian Day of local midnight** (the object
+    `JD.new date gmt`, from which the neighbouring days of the searches are stepped): every scalar type -/
+theorem gmt_only_through_jd (p : Params α) (loc : Location α) (rd : Int) (w : Option (Weather α)) :
+    prayerTimesDt p loc rd w = timesAtJd p loc.coords w (JD.new rd loc.gmt) := rfl
+
+end factor
 
 /-- two angles in (-180°, 180°] that differ by a whole number of turns are equal -/
 theorem unique_rep (a b : ℝ) (n : ℤ) (ha : -180 < a ∧ a ≤ 180) (hb : -180 < b ∧ b ≤ 180)
